@@ -89,6 +89,15 @@ def obumar : Handler :=
     (fun h o => Pred.C13.mar h o)
     (fun h => hdrWF h)
 
+/-- `c13.obuwire <obu> => <bytes>` : OBU.Marshal -/
+def obuwire : Handler :=
+  mkHandler rdObu Rd.bytes (fun o => o.wire) (fun o b => Pred.C13.obuwire o b) (fun o => hdrWF o.hdr)
+
+/-- `c13.encleb <n> => <u64>` : EncodeLEB128 -/
+def encleb : Handler :=
+  mkHandler Rd.u64 Rd.u64 (fun n => encodeLeb128Go 10 n 0) (fun n o => Pred.C13.encleb n o)
+    (fun n => decide (n.toNat < 2 ^ 56))
+
 /-! ### c15.av1 -/
 
 def resync : Handler :=
@@ -137,6 +146,6 @@ def c09pkt : Handler :=
 
 def handlers : List (String × Handler) :=
   [("c13.rt", rt), ("c13.leb", leb), ("c13.lebrd", lebrd), ("c13.obuhdr", obuhdr),
-   ("c13.obumar", obumar), ("c15.av1", resync), ("c08.av1", c08), ("c09.av1", c09),
+   ("c13.obumar", obumar), ("c13.obuwire", obuwire), ("c13.encleb", encleb), ("c15.av1", resync), ("c08.av1", c08), ("c09.av1", c09),
    ("c09.av1packet", c09pkt)]
 end Rtp.Kinds.Av1
